@@ -1,0 +1,47 @@
+//go:build verif
+
+package staking
+
+// Contracts for the verification machinery in /verif (comment-only file; no code).
+//
+// verif:import types github.com/cosmos/cosmos-sdk/x/staking/types
+// verif:import distypes github.com/cosmos/cosmos-sdk/x/distribution/types
+// verif:import sdk github.com/cosmos/cosmos-sdk/types
+
+// ---- EVM hook: native staking actions for the events of the staking system contract only (C17) ----
+// verif:func (*HookAdapter).PostTxProcessing
+//@ modifies world(ctx)
+//@ callsite handler [own-logs-only] a1 == log && log.Address.Bytes() == h.stakingContract.Bytes() && mapHas(h.handlers, log.Topics[0]) && a0 == ctx
+//@ loop 1 continue [propagate]  callsok("handler")
+//@ loop 1 continue [each-once]  ncalls("handler") <= 1
+//@ loop 1 continue [matching-logs-handled] log.Address.Bytes() == h.stakingContract.Bytes() && mapHas(h.handlers, log.Topics[0]) ==> ncalls("handler") == 1
+//@ ensures [all-logs-visited] result == nil ==> !returnedInLoop(1)
+
+// ---- handlers: the message is built from the event's own fields and routed through ExecuteMsg -------
+// verif:func (*HookAdapter).HandleDelegated
+//@ modifies world(ctx)
+//@ callsite ConvertAndEncode [signer-is-event-delegator] data == event.Delegator.Bytes()
+//@ callsite ExecuteMsg [fields] log.Topics[0] == h.abi.Events["Delegated"].ID && as(dollar_msg, *types.MsgDelegate).DelegatorAddress == callres("ConvertAndEncode", 0) && as(dollar_msg, *types.MsgDelegate).ValidatorAddress == event.Validator && as(dollar_msg, *types.MsgDelegate).Amount.Denom == callres("BondDenom", 0) && as(dollar_msg, *types.MsgDelegate).Amount.Amount == sdk.NewIntFromBigInt(event.Amount) && router == h.router && dollar_ctx == ctx
+//@ ensures [routed-once] result == nil ==> ncalls("ExecuteMsg") == 1 && callsok("ExecuteMsg")
+//@ ensures [at-most-once] ncalls("ExecuteMsg") <= 1
+
+// verif:func (*HookAdapter).HandleUndelegated
+//@ modifies world(ctx)
+//@ callsite ConvertAndEncode [signer-is-event-delegator] data == event.Delegator.Bytes()
+//@ callsite ExecuteMsg [fields] log.Topics[0] == h.abi.Events["Undelegated"].ID && as(dollar_msg, *types.MsgUndelegate).DelegatorAddress == callres("ConvertAndEncode", 0) && as(dollar_msg, *types.MsgUndelegate).ValidatorAddress == event.Validator && as(dollar_msg, *types.MsgUndelegate).Amount.Denom == callres("BondDenom", 0) && as(dollar_msg, *types.MsgUndelegate).Amount.Amount == sdk.NewIntFromBigInt(event.Amount) && router == h.router && dollar_ctx == ctx
+//@ ensures [routed-once] result == nil ==> ncalls("ExecuteMsg") == 1 && callsok("ExecuteMsg")
+//@ ensures [at-most-once] ncalls("ExecuteMsg") <= 1
+
+// verif:func (*HookAdapter).HandleRedelegated
+//@ modifies world(ctx)
+//@ callsite ConvertAndEncode [signer-is-event-delegator] data == event.Delegator.Bytes()
+//@ callsite ExecuteMsg [fields] log.Topics[0] == h.abi.Events["Redelegated"].ID && as(dollar_msg, *types.MsgBeginRedelegate).DelegatorAddress == callres("ConvertAndEncode", 0) && as(dollar_msg, *types.MsgBeginRedelegate).ValidatorSrcAddress == event.ValidatorSrc && as(dollar_msg, *types.MsgBeginRedelegate).ValidatorDstAddress == event.ValidatorDest && as(dollar_msg, *types.MsgBeginRedelegate).Amount.Denom == callres("BondDenom", 0) && as(dollar_msg, *types.MsgBeginRedelegate).Amount.Amount == sdk.NewIntFromBigInt(event.Amount) && router == h.router && dollar_ctx == ctx
+//@ ensures [routed-once] result == nil ==> ncalls("ExecuteMsg") == 1 && callsok("ExecuteMsg")
+//@ ensures [at-most-once] ncalls("ExecuteMsg") <= 1
+
+// verif:func (*HookAdapter).HandleWithdrew
+//@ modifies world(ctx)
+//@ callsite ConvertAndEncode [signer-is-event-delegator] data == event.Delegator.Bytes()
+//@ callsite ExecuteMsg [fields] log.Topics[0] == h.abi.Events["Withdrew"].ID && as(dollar_msg, *distypes.MsgWithdrawDelegatorReward).DelegatorAddress == callres("ConvertAndEncode", 0) && as(dollar_msg, *distypes.MsgWithdrawDelegatorReward).ValidatorAddress == event.Validator && router == h.router && dollar_ctx == ctx
+//@ ensures [routed-once] result == nil ==> ncalls("ExecuteMsg") == 1 && callsok("ExecuteMsg")
+//@ ensures [at-most-once] ncalls("ExecuteMsg") <= 1
